@@ -21,8 +21,8 @@ PROPS = {
 
 PROPS["C01"] = dict(
     pkg="c01", race=False, level="exploration", prepare="exec_projects",
-    projects_quick=[("core", ["v0", "v1", "v2", "v3"])],
-    projects_thorough=[("core", ["v0", "v1", "v2", "v3", "v4", "v5"])],
+    projects_quick=[("core", ["v0", "v1", "v2", "v3"]), ("roots", ["v0", "v1"])],
+    projects_thorough=[("core", ["v0", "v1", "v2", "v3", "v4", "v5"]), ("roots", ["v0", "v1", "v4"])],
     quick=dict(shards=8, timeout=600), thorough=dict(shards=16, timeout=3000),
     claim="differential testing of servers generated at check time from /repo's templates (several option vectors linked into one "
           "binary) against an independent reference GraphQL executor, over rapid-generated operations (fragments, aliases, "
@@ -57,8 +57,8 @@ PROPS["C04"] = dict(
 
 PROPS["C06"] = dict(
     pkg="c06", race=True, level="exploration", prepare="exec_projects",
-    projects_quick=[("core", ["v0", "w1", "w2"])],
-    projects_thorough=[("core", ["v0", "w1", "w2", "v1", "w8"])],
+    projects_quick=[("core", ["v0", "w1", "w2"]), ("roots", ["v0", "w2"])],
+    projects_thorough=[("core", ["v0", "w1", "w2", "v1", "w8"]), ("roots", ["v0", "v1", "w2"])],
     quick=dict(shards=8, timeout=900), thorough=dict(shards=16, timeout=3000),
     claim="metamorphic testing under the Go race detector: every generated (operation, plan) pair is executed under 8 harness-owned "
           "schedules (none, yields, delays, reversed sibling completion through gates, mixed) on servers generated with "
